@@ -82,4 +82,48 @@ def run(pid, spec, repo, here, seed):
         'caught': sum(1 for _, r in sres if r and r.get(pid)),
         'items': ['%s: %s' % (s, 'does not apply' if r is None else ('caught by ' + ', '.join(k.split(':')[0] for k in r.get(pid, [])[:3]) if r.get(pid) else 'NOT caught by this property\'s check')) for s, r in sres],
     }
+    # ---- mutation-survey regression: every suite-surviving mutant that this property's check reported when the
+    # survey was triaged must still be reported, every survivor that was silent (equivalent mutants) must stay silent
+    info['survey'] = survey_regression(pid, repo, here)
     return info, viol
+
+
+def survey_regression(pid, repo, here):
+    import shutil, tempfile
+    path = os.path.join(here, 'selftest', 'survey', 'results.jsonl')
+    if not os.path.exists(path):
+        return {'note': 'no survey results filed'}
+    rs = [json.loads(l) for l in open(path)]
+    rel = [r for r in rs if not r['fired'] or pid in r['fired']]
+
+    def one(m):
+        src = os.path.join(repo, m['file'])
+        try:
+            lines = open(src).read().split('\n')
+        except OSError:
+            return (m, None)
+        if m['line'] - 1 >= len(lines) or lines[m['line'] - 1] != m['orig']:
+            return (m, None)
+        d = tempfile.mkdtemp(prefix='seqio-surv-')
+        try:
+            subprocess.run(['rsync', '-a', '--exclude', 'target', '--exclude', '.git', repo + '/', d + '/'], check=True)
+            lines[m['line'] - 1] = m['text']
+            with open(os.path.join(d, m['file']), 'w') as fh:
+                fh.write('\n'.join(lines))
+            r = subprocess.run(['python3', os.path.join(here, 'sa', 'allkeys.py'), d], stdout=subprocess.PIPE, stderr=subprocess.DEVNULL, text=True)
+            try:
+                fired = json.loads(r.stdout.strip().split('\n')[-1])
+            except Exception:
+                fired = {'error': r.stdout[-200:]}
+            return (m, fired)
+        finally:
+            shutil.rmtree(d, ignore_errors=True)
+    with ThreadPoolExecutor(max_workers=8) as ex:
+        res = list(ex.map(one, rel))
+    applied = [(m, f) for m, f in res if f is not None]
+    lost = ['%s:%d %r -> %r' % (m['file'], m['line'], m['old'][:30], m['new'][:30]) for m, f in applied if m['fired'] and pid in m['fired'] and pid not in f]
+    noisy = ['%s:%d %r -> %r: %s' % (m['file'], m['line'], m['old'][:30], m['new'][:30], f.get(pid)) for m, f in applied if not m['fired'] and pid in f]
+    return {'suite_surviving_mutants_considered': len(rel), 'applied': len(applied),
+            'reported_then_and_now': sum(1 for m, f in applied if m['fired'] and pid in m['fired'] and pid in f),
+            'silent_then_and_now': sum(1 for m, f in applied if not m['fired'] and pid not in f),
+            'no_longer_reported': lost, 'equivalent_mutant_now_reported': noisy}
